@@ -228,6 +228,11 @@ type Ext struct {
 	Ignore bool
 }
 
+type TypeCase struct {
+	Ctor string
+	T    T
+}
+
 type FnSpec struct {
 	Pkg    string // "" = package rux
 	Recv   string
@@ -258,6 +263,9 @@ type FnSpec struct {
 	MonadicIf bool
 	// OpaqueClosures: function literals that are only passed on are translated to `()`
 	OpaqueClosures bool
+	// TypeCases: Go type text of a type-switch clause -> the constructor (one field) of the Lean inductive that stands
+	// for the switched value, and the type of the field
+	TypeCases map[string]TypeCase
 	// MapOrder: Lean function (List of keys → List of keys) giving the order in which `for k := range m` visits the
 	// keys of a Go map that the configuration represents as the list of its keys (Go leaves the order unspecified;
 	// theorems quantify over the function and assume only that it permutes the keys)
@@ -1683,6 +1691,8 @@ func (t *tr) stmt(s ast.Stmt) {
 		t.pop()
 	case *ast.SwitchStmt:
 		t.switchStmt(x)
+	case *ast.TypeSwitchStmt:
+		t.typeSwitchStmt(x)
 	case *ast.RangeStmt:
 		t.rangeStmt(x)
 	case *ast.ForStmt:
@@ -2017,6 +2027,73 @@ func (t *tr) clauseBody(body []ast.Stmt) []ast.Stmt {
 		})
 	}
 	return body
+}
+
+// typeSwitchStmt: `switch v := e.(type) { case T1: …; case T2: …; default: … }` on a value of a type that the
+// configuration represents as a Lean inductive (FnSpec.TypeCases: Go type text -> constructor with one field) becomes a
+// `match`; every clause names exactly one type, in the default clause `v` is the value itself.
+func (t *tr) typeSwitchStmt(x *ast.TypeSwitchStmt) {
+	if x.Init != nil || t.spec.TypeCases == nil {
+		t.fail(x, "type switch")
+	}
+	var bind string
+	var subject ast.Expr
+	switch a := x.Assign.(type) {
+	case *ast.AssignStmt:
+		if len(a.Lhs) != 1 || len(a.Rhs) != 1 {
+			t.fail(x, "type switch header")
+		}
+		bind = a.Lhs[0].(*ast.Ident).Name
+		subject = a.Rhs[0].(*ast.TypeAssertExpr).X
+	case *ast.ExprStmt:
+		subject = a.X.(*ast.TypeAssertExpr).X
+	default:
+		t.fail(x, "type switch header")
+	}
+	sv, _ := t.expr(subject)
+	t.emit("match %s with", sv)
+	hasDefault := false
+	var def *ast.CaseClause
+	for _, cc := range x.Body.List {
+		c := cc.(*ast.CaseClause)
+		if c.List == nil {
+			def = c
+			continue
+		}
+		if len(c.List) != 1 {
+			t.fail(c, "type switch clause with several types")
+		}
+		tc, ok := t.spec.TypeCases[t.p.text(c.List[0])]
+		if !ok {
+			t.fail(c, "type switch clause %s is not configured", t.p.text(c.List[0]))
+		}
+		t.push()
+		v := "_"
+		if bind != "" && bind != "_" {
+			v = t.declareT(bind, tc.T.Lean)
+		}
+		t.emit("| %s %s =>", tc.Ctor, v)
+		t.ind++
+		t.block(t.clauseBody(c.Body))
+		t.ind--
+		t.pop()
+	}
+	if def != nil {
+		hasDefault = true
+		t.push()
+		t.emit("| _ =>")
+		t.ind++
+		if bind != "" && bind != "_" {
+			v := t.declare(bind)
+			t.emit("let %s := %s", v, sv)
+		}
+		t.block(t.clauseBody(def.Body))
+		t.ind--
+		t.pop()
+	}
+	if !hasDefault {
+		t.emit("| _ => pure ()")
+	}
 }
 
 func (t *tr) switchStmt(x *ast.SwitchStmt) {
@@ -2962,6 +3039,19 @@ func endsInReturn(s ast.Stmt) bool {
 				return true
 			}
 		}
+	case *ast.TypeSwitchStmt:
+		// a type switch with a default clause all of whose clauses end in a return
+		hasDef := false
+		for _, cc := range x.Body.List {
+			c := cc.(*ast.CaseClause)
+			if c.List == nil {
+				hasDef = true
+			}
+			if len(c.Body) == 0 || !endsInReturn(c.Body[len(c.Body)-1]) {
+				return false
+			}
+		}
+		return hasDef
 	}
 	return false
 }
